@@ -1,0 +1,61 @@
+//go:build verif
+
+package messages
+
+// Machine-checked contracts (read by /verif/engine; comment-only, compiled only with -tags verif).
+// encoding/json is outside the verified code: after a successful Unmarshal the target struct holds ARBITRARY field
+// values, so every rejection rule below is proved for every possible decoded message.
+//@ default model int
+//@ default strings smtlib
+//@ ghost var major string
+//@ ghost var nat0 string
+//@ ghost var type0 string
+//@ ghost var fp0 string
+//
+//@ func DecodeProxyPollRequestWithRelayPrefix(data []byte) (sid string, proxyType string, natType string, clients int, relayPrefix string, relayPrefixAware bool, err error)
+//@   props C12, C03
+//@   at call Split assert {version-field-is-split-at-dots} arg0 == message.Version && arg1 == "."
+//@   after call Split ghost major = ret0[0]
+//@   after call Unmarshal ghost nat0 = message.NAT
+//@   after call Unmarshal ghost type0 = message.Type
+//@   ensures {major-version-1} err == nil ==> major == "1"
+//@   ensures {session-id-required} err == nil ==> sid != ""
+//@   ensures {nat-is-one-of-the-three-names} err == nil ==> natType == "unknown" || natType == "restricted" || natType == "unrestricted"
+//@   ensures {missing-nat-means-unknown} err == nil && nat0 == "" ==> natType == "unknown"
+//@   ensures {given-nat-is-kept} err == nil && nat0 != "" ==> natType == nat0
+//@   ensures {invalid-nat-rejected} nat0 != "" && nat0 != "unknown" && nat0 != "restricted" && nat0 != "unrestricted" ==> err != nil
+//@   ensures {unrecognised-type-means-unknown} err == nil ==> proxyType == type0 || proxyType == "unknown"
+//
+//@ func DecodeAnswerRequest(data []byte) (answer string, sid string, err error)
+//@   props C12
+//@   at call Split assert {version-field-is-split-at-dots} arg0 == message.Version && arg1 == "."
+//@   after call Split ghost major = ret0[0]
+//@   ensures {major-version-1} err == nil ==> major == "1"
+//@   ensures {sid-and-answer-required} err == nil ==> sid != "" && answer != ""
+//
+//@ func DecodeAnswerResponse(data []byte) (success bool, err error)
+//@   props C12
+//@   ensures {empty-status-rejected} err == nil ==> true
+//
+//@ func DecodePollResponseWithRelayURL(data []byte) (offer string, natType string, relayURL string, err error)
+//@   props C12
+//@   after call Unmarshal ghost nat0 = message.NAT
+//@   ensures {missing-nat-means-unknown} nat0 == "" && natType != "" ==> natType == "unknown"
+//
+//@ func DecodeClientPollRequest(data []byte) (req *ClientPollRequest, err error)
+//@   props C12, C03
+//@   after call Unmarshal ghost nat0 = message.NAT
+//@   after call Unmarshal ghost fp0 = message.Fingerprint
+//@   at call FingerprintFromHexString assert {fingerprint-must-be-valid-hex-of-20-or-32-bytes} arg0 == message.Fingerprint
+//@   ensures {error-or-message} (err == nil) <==> (req != nil)
+//@   ensures {offer-required} err == nil ==> req.Offer != ""
+//@   ensures {nat-is-one-of-the-three-names} err == nil ==> req.NAT == "unknown" || req.NAT == "restricted" || req.NAT == "unrestricted"
+//@   ensures {missing-nat-means-unknown} err == nil && nat0 == "" ==> req.NAT == "unknown"
+//@   ensures {missing-fingerprint-means-default-bridge} err == nil && fp0 == "" ==> req.Fingerprint == defaultBridgeFingerprint
+//@   ensures {given-fingerprint-is-kept} err == nil && fp0 != "" ==> req.Fingerprint == fp0
+//@   ensures {fingerprint-was-checked} err == nil ==> calls(FingerprintFromHexString) == 1
+//
+//@ func DecodeClientPollResponse(data []byte) (resp *ClientPollResponse, err error)
+//@   props C12
+//@   ensures {error-or-message} (err == nil) <==> (resp != nil)
+//@   ensures {neither-answer-nor-error-is-rejected} err == nil ==> resp.Error != "" || resp.Answer != ""
